@@ -1,0 +1,74 @@
+//go:build verif
+
+// Contracts for package typechecker, read by the verification machinery in /verif.
+// This file contains no executable code; it is compiled only with -tags verif.
+package typechecker
+
+/*@
+// a typechecker keeps working on the same module
+immutable typechecker.Typechecker.Module typechecker.Typechecker.panicMode ast.Module.Ast
+
+// type classes: 1 Zahl, 2 Kommazahl, 3 Byte, 4 Wahrheitswert, 5 Buchstabe, 6 Text, 0 anything else
+spec clsOf(ty ddptypes.Type) int :=
+  ddptypes.norm(ty) == ddptypes.ZAHL ? 1 : (ddptypes.norm(ty) == ddptypes.KOMMAZAHL ? 2 : (ddptypes.norm(ty) == ddptypes.BYTE ? 3 :
+  (ddptypes.norm(ty) == ddptypes.WAHRHEITSWERT ? 4 : (ddptypes.norm(ty) == ddptypes.BUCHSTABE ? 5 : (ddptypes.norm(ty) == ddptypes.TEXT ? 6 : 0)))))
+spec numericCls(k int) bool := k == 1 || k == 2 || k == 3
+spec intCls(k int) bool := k == 1 || k == 3
+
+// every error path of the checker goes through err: the module is marked faulty (and stays so)
+func (*Typechecker).err [C04, C07]
+  requires t != nil && t.Module != nil && t.Module.Ast != nil && t.panicMode != nil
+  modifies ast.Ast.Faulty, *bool, parser.parser.errored
+  ensures t.Module.Ast.Faulty
+  ensures forall a *ast.Ast :: a != t.Module.Ast ==> a.Faulty == old(a.Faulty)
+
+func (*Typechecker).errExpr [C04]
+  requires t != nil && t.Module != nil && t.Module.Ast != nil && t.panicMode != nil
+  modifies ast.Ast.Faulty, *bool, parser.parser.errored
+  ensures t.Module.Ast.Faulty
+  ensures forall a *ast.Ast :: a != t.Module.Ast ==> a.Faulty == old(a.Faulty)
+
+func (*Typechecker).errExpected [C04]
+  requires t != nil && t.Module != nil && t.Module.Ast != nil && t.panicMode != nil
+  modifies ast.Ast.Faulty, *bool, parser.parser.errored
+  ensures t.Module.Ast.Faulty
+  ensures forall a *ast.Ast :: a != t.Module.Ast ==> a.Faulty == old(a.Faulty)
+
+// membership in a list of types, up to type equivalence
+func isOneOf [C04, C14]
+  modifies nothing
+  ensures result <==> (exists i int :: 0 <= i && i < len(types) && ddptypes.Equal(t, types[i]))
+  loop 0 invariant forall i int :: 0 <= i && i <= rangeindex0 && i < len(types) ==> !ddptypes.Equal(t, types[i])
+
+// INDUCTION HYPOTHESIS for sub-expressions: Evaluate returns the visitor's result register; errors in the operand
+// only ever set the Faulty flag
+func (*Typechecker).Evaluate
+  trusted
+  modifies *
+  ensures result == t.latestReturnedType
+  ensures old(t.Module.Ast.Faulty) ==> t.Module.Ast.Faulty
+
+// TRUSTED frame: looking for an overload does not report diagnostics for this module
+func (*Typechecker).findOverload
+  trusted
+  modifies *
+  ensures t.Module.Ast.Faulty == old(t.Module.Ast.Faulty) && t.latestReturnedType == old(t.latestReturnedType)
+
+// --- C04 "operand of a wrong type" / C02 checker side, unary operators ---
+spec admissibleUn(op ast.UnaryOperator, k int) bool :=
+     ((op == ast.UN_ABS || op == ast.UN_NEGATE) && numericCls(k))
+  || (op == ast.UN_NOT && k == 4)
+  || (op == ast.UN_LOGIC_NOT && intCls(k))
+spec resultUn(op ast.UnaryOperator, k int) int :=
+  (op == ast.UN_ABS || op == ast.UN_NEGATE) ? (k == 3 ? 1 : k) : (op == ast.UN_NOT ? 4 : k)
+
+func (*Typechecker).VisitUnaryExpr [C04, C02]
+  cases expr.Operator in {ast.UN_ABS, ast.UN_NEGATE, ast.UN_NOT, ast.UN_LOGIC_NOT}
+  requires t != nil && t.Module != nil && t.Module.Ast != nil && t.panicMode != nil && expr != nil
+  at LS after call findOverload
+  // an inadmissible operand is reported
+  ensures reached(LS) && overload == nil && !admissibleUn(expr.Operator, clsOf(rhs)) ==> t.Module.Ast.Faulty
+  // an admissible one is not, and the result has the type the language rules give
+  ensures reached(LS) && overload == nil && admissibleUn(expr.Operator, clsOf(rhs)) ==> t.Module.Ast.Faulty == at(LS, t.Module.Ast.Faulty)
+  ensures reached(LS) && overload == nil && admissibleUn(expr.Operator, clsOf(rhs)) ==> clsOf(t.latestReturnedType) == resultUn(expr.Operator, clsOf(rhs))
+@*/
